@@ -351,15 +351,16 @@ def verdict(pid, mismatches, evidence, tier):
         viol += 1
         rp = os.path.join(outdir, "%s-%s.json" % (tier, hashlib.sha1(sig.encode()).hexdigest()[:10]))
         json.dump(dict(property=pid, signature=sig, occurrences=len(ms), first=ms[0]), open(rp, "w"), indent=1)
-        print(f"VIOLATION property={pid} replay={rp}")
+        print(f"VIOLATION property={pid} replay={rp}" if not pid.startswith("X") else f"EXTRA-DISAGREEMENT spec={pid} replay={rp}")
         print(f"  signature {sig}: {ms[0].get('detail', '')[:300]}")
     evidence = dict(evidence)
     evidence.update(property_id=pid, tier=tier, seed=SEED, level="model_checking", violations=viol)
     evidence.setdefault("assumptions", [])
     evidence["coverage"]["known_findings_reported"] = kf
     if not os.environ.get("VERIF_NO_EVIDENCE"):          # set by tools/mutants.py: runs against changed copies are not evidence
-        os.makedirs(os.path.join(VERIF, "evidence"), exist_ok=True)
-        json.dump(evidence, open(os.path.join(VERIF, "evidence", pid + ".json"), "w"), indent=1)
+        evdir = os.path.join(VERIF, "extras" if pid.startswith("X") else "evidence")       # extras: specification modules beyond the listed properties
+        os.makedirs(evdir, exist_ok=True)
+        json.dump(evidence, open(os.path.join(evdir, pid + ".json"), "w"), indent=1)
     return 1 if viol else 0
 
 
